@@ -806,6 +806,12 @@ def _list_provenance(f: Fn, e: ast.AST, source: str, seen: Set[str]):
     from ..dtable import subst
     if isinstance(e, ast.Name) and e.id == source:
         return set(), ''
+    if not isinstance(e, ast.Name) and f.copies.xnorm(e) == source:
+        return set(), ''
+    if isinstance(e, ast.Name) and e.id not in f.fi.params and not assigned_from(f, e.id):
+        pass
+    elif isinstance(e, ast.Name) and f.copies.xnorm(e) == source and f.copies.xnorm(e) != e.id:
+        return set(), ''
     if isinstance(e, ast.Call) and isinstance(e.func, ast.Name) and e.func.id in ('list', 'set', 'tuple', 'frozenset') and len(e.args) == 1 \
             and not e.keywords:
         return _list_provenance(f, e.args[0], source, seen)
@@ -883,10 +889,11 @@ def _always_raises(stmts) -> bool:
 
 def _other_branch_raises(test: ast.AST, pol: bool) -> bool:
     """the guard `test` (held with polarity pol) belongs to an `if` whose other branch ends in raise on every path"""
-    st = parent(test)
-    while st is not None and not isinstance(st, (ast.If, ast.stmt)):
-        st = parent(st)
-    if not isinstance(st, ast.If) or st.test is not test:
+    cur, st = test, parent(test)
+    while isinstance(st, ast.UnaryOp) and isinstance(st.op, ast.Not):
+        pol = not pol
+        cur, st = st, parent(st)
+    if not isinstance(st, ast.If) or st.test is not cur:
         return False
     return _always_raises(st.orelse if pol else st.body)
 
@@ -942,22 +949,27 @@ def r02_2_attrset(ctx, rid='R02.2'):
             'class_subobjects skips parameters by a non-literal condition (%s): parameters it skips are neither '
             'recognised nor retagged, but the constructor still treats them as known and leaves their tags' % why)
     removed, why2, f = strip_exempt_removed(P)
-    r.check(removed is not None, '__strip_extra_attributes exempts argspec.args minus %s' % (sorted(removed) if removed else removed),
+    r.check(removed is not None, '__strip_extra_attributes exempts <what it is given> minus %s' % (sorted(removed) if removed else removed),
             f.key('exempt-set'), f.loc(), 'cannot establish the set exempt from stripping: %s' % why2)
+    # the caller passes argspec.args of the class's __init__ - possibly already without some of the names (the filtering may live
+    # on either side of the call): what is exempt in the end is argspec.args minus both removals
+    c = fn(P, CTOR + '__call__')
+    calls = [x for x in c.calls('__strip_extra_attributes') if c.live(x)]
+    good = bool(calls)
+    for x in calls:
+        got, why3 = (None, 'wrong arity')
+        if len(x.args) == 2:
+            got, why3 = _list_provenance(c, x.args[1], 'inspect.getfullargspec(self.class_.__init__).args', set())
+        if got is None:
+            good = False
+        elif removed is not None:
+            removed = removed | got
+    r.check(good, '__strip_extra_attributes(node, <getfullargspec(class_.__init__).args, possibly filtered>)', c.key('strip-call-args'), c.loc(),
+            'the strip step is not given the constructor\'s argument names')
     if skips is not None and removed is not None:
         r.check(skips == removed, 'skip set == removed set == %s' % sorted(skips), f.key('exempt-vs-subobjects'), f.loc(),
                 'a key named %s is exempt from tag stripping but is not a type-checked attribute: its value reaches '
                 'construction with document tags intact' % sorted(skips ^ removed), {'skips': sorted(skips), 'removed': sorted(removed)})
-    # the caller passes argspec.args of the class's __init__
-    c = fn(P, CTOR + '__call__')
-    calls = [x for x in c.calls('__strip_extra_attributes') if c.live(x)]
-    good = False
-    for x in calls:
-        if len(x.args) == 2 and c.copies.xnorm(x.args[1]) in (
-                'inspect.getfullargspec(self.class_.__init__).args',):
-            good = True
-    r.check(good, '__strip_extra_attributes(node, getfullargspec(class_.__init__).args)', c.key('strip-call-args'), c.loc(),
-            'the strip step is not given the constructor\'s argument names')
     r.done()
 
 
